@@ -11,7 +11,7 @@ A script is a JSON-able dict (see DESIGN.md 2.1):
   hostkey_default keyspec|None used when the requested type has no entry (None: close)
   gex         {'sizes': [...], 'style': 'strict'|'roundup'|'openssh'|'largest'} | None (refuse)
   ssh1        {'cmask','amask','host_bits','server_bits'}
-  faults      [{'conn': n|'*'|'probe', 'at': label, 'nth': k, 'op': ..., ...}]
+  faults      [{'conn': n|'*'|'probe', 'at': label, 'nth': k, 'req': [min, pref, max] (only the answer to that GEX_REQUEST), 'op': ..., ...}]
   gate        {'conn': n|'*', 'at': label}  block before that message until Peer.gate is set
   linger      seconds to keep an idle connection open at most (default 12)
 """
@@ -114,6 +114,8 @@ class PeerBase:
             if not (fc == '*' or fc == c.idx or (fc == 'probe' and c.idx >= 1) or (isinstance(fc, list) and c.idx in fc) or (isinstance(fc, dict) and c.idx >= fc.get('ge', 0) and c.idx <= fc.get('le', 1 << 30))):
                 continue
             if 'nth' in f and f['nth'] != nth:
+                continue
+            if 'req' in f and list(f['req']) != list(getattr(c, 'last_gex', None) or ()):
                 continue
             res.append(f)
         return res
@@ -315,6 +317,7 @@ class PeerBase:
                     raise _Abort()
                 mn, pref, mx = struct.unpack('>III', payload[1:13])
                 ans = moduli_answer(s.get('gex'), mn, pref, mx)
+                c.last_gex = (mn, pref, mx)
                 self.log('gex-request', c.idx, min=mn, pref=pref, max=mx, answer=ans)
                 if ans is None:
                     raise _Abort()
